@@ -1092,7 +1092,7 @@ def decline_conditions_rule(chk, P, key):
     }
 
     def category(b, o):
-        x = o
+        x = mir.norm_bool(o)[0]
         if x[0] == "discr":
             x = x[1]
         while x[0] in ("field", "downcast", "copy", "ref", "deref"):
